@@ -253,6 +253,8 @@ impl GenericsAnalyzer {
                             self.trait_generics.where_predicates.push(predicate.clone());
                         }
                     },
+                    // lifetime params stay on the method, and so do their predicates
+                    syn::WherePredicate::Lifetime(_) => {}
                     _ => {
                         self.trait_generics.where_predicates.push(predicate.clone());
                     }
@@ -285,7 +287,10 @@ impl GenericsAnalyzer {
 
         if let Some(where_clause) = &generics.where_clause {
             for predicate in &where_clause.predicates {
-                self.trait_generics.where_predicates.push(predicate.clone());
+                // lifetime params stay on the method, and so do their predicates
+                if !matches!(predicate, syn::WherePredicate::Lifetime(_)) {
+                    self.trait_generics.where_predicates.push(predicate.clone());
+                }
             }
         }
 
